@@ -259,7 +259,122 @@ def run(ctx, chk):
         chk.ob(a == n, "C18/leaf/std-vs-none/%s" % name, "decoder %s has different tables in std and no-alloc: %r vs %r" % (name, (a or [])[:2], (n or [])[:2]),
                sample={"leaf": name, "rows": len(a or [])})
     chk.cov["leaf_tables_compared"] = len(T["std"])
+    # ---- (5) the local copies of many_m_n / count against nom's semantics (scripted element parser)
+    nscripts = check_local_combinators(ctx, chk, 5 if ctx.tier == "thorough" else 4)
+    chk.cov["local_combinator_scripts"] = nscripts
     chk.cov["configs"] = cfgs
     chk.cov["programs"] = 3
     chk.cov["trusted_base"] = ["rustc MIR of the three configurations", "nom / heapless / alloc contracts in xform.py"]
     chk.ob(n1 + n2 >= 300 and len(T["std"]) >= 25, "C18/floor/%d/%d" % (n1 + n2, len(T["std"])), "too little compared: %d layout pairs, %d leaf tables" % (n1 + n2, len(T["std"])))
+
+
+# ------------------------------------------------------------------------------------------------
+# the locally re-implemented nom combinators against nom's reference semantics, with an abstract
+# element parser whose outcome at each application is scripted
+
+def _scripted_env(facts):
+    from ..interp import Interp, St, Lin
+    from ..values import VParser, VRef, VTuple, VSlice, VInt
+    from .. import xform
+    I = Interp(facts, xform.EXT, inline_leaves=True)
+    st = St()
+    return I, st
+
+
+def _install_scripted():
+    from .. import xform
+    from ..values import VTuple, VSlice, VInt
+    from ..interp import Lin, mk_const
+    if "scripted" in xform.PARSERS:
+        return
+
+    def p_scripted(I, st, pv, inp, ctx):
+        script, cref = pv.args
+        i = I.read_ref(st, cref)
+        idx = i.lin.c
+        I.write_loc(st, cref.cell, cref.path, mk_const(idx + 1, 64, False))
+        act = script[idx] if idx < len(script) else "E"
+        sl, off = inp.items
+        if act == "c":
+            rest = VTuple((VSlice(sl.buf, sl.start + 1, sl.len - 1), off))
+            return [(st, xform.ok_pair(rest, mk_const(100 + idx, 32, False)))]
+        if act == "n":
+            return [(st, xform.ok_pair(inp, mk_const(100 + idx, 32, False)))]
+        if act == "E":
+            return [(st, xform.nom_err(I, "Error"))]
+        return [(st, xform.nom_err(I, "Failure"))]
+    xform.PARSERS["scripted"] = p_scripted
+
+
+def _sig(I, st, r):
+    from ..values import VAdt, VList
+    from .. import xform
+    if xform.is_ok(r):
+        rest, v = r.fields[0].items
+        items = tuple(x.lin.c for x in v.items) if isinstance(v, VList) else ("?", repr(v))
+        return ("ok", items, rest.items[0].start.c)
+    return ("err", xform.err_kind(I, r))
+
+
+def check_local_combinators(ctx, chk, maxlen):
+    import itertools
+    from ..interp import Interp, St, Lin, mk_const
+    from ..values import VParser, VRef, VTuple, VSlice, VClosure
+    from .. import xform
+    _install_scripted()
+    facts = ctx.facts("none")
+    crate = facts.crate
+    bm = facts.bodies.get(crate + "::messages::nom_noalloc::many_m_n")
+    bc = facts.bodies.get(crate + "::messages::nom_noalloc::count")
+    locals_found = [b for b in (bm, bc) if b is not None]
+    if not locals_found:
+        # nothing re-implemented locally (anymore): nothing to compare
+        chk.note("no local many_m_n/count found in the no-alloc build")
+        return 0
+    dummy = {"body": {"def": "<c18>", "locals": [0]}, "bb": 0, "term": {"dest": {"l": 0, "p": []}, "loc": "", "macros": [], "target": 0}, "frame": [], "results": []}
+    n = 0
+
+    def fresh(script):
+        I = Interp(facts, xform.EXT, inline_leaves=True)
+        st = St()
+        c = I.new_cell(st, mk_const(0, 64, False))
+        p = VParser("scripted", (script, VRef(c, (), True)), {"site": ("<c18>", 0), "loc": "", "generics": None})
+        pc = I.new_cell(st, p)
+        inp = VTuple((VSlice("X", Lin.const(0), Lin.const(64)), mk_const(0, 64, False)))
+        return I, st, p, VRef(pc, (), True), inp
+    for L in range(0, maxlen + 1):
+        for script in itertools.product("cnEF", repeat=L):
+            if bm is not None:
+                for (mn, MAX) in ((1, 4), (0, 4), (2, 3)):
+                    I, st, p, pref, inp = fresh(script)
+                    genv = {"I": {"ty": 0}, "O": {"ty": 0}, "E": {"ty": 0}, "F": {"ty": 0}, "MAX": {"const": MAX}}
+                    outs = I.exec_fn(st, bm, [mk_const(mn, 64, False), p], genv)
+                    got = []
+                    for (s2, clo) in outs:
+                        for (s3, r) in I.apply_callable(s2, clo, [inp], dummy):
+                            got.append(_sig(I, s3, r))
+                    I2, st2, p2, pref2, inp2 = fresh(script)
+                    want = [_sig(I2, s3, r) for (s3, r) in xform.do_many_m_n(I2, st2, mk_const(mn, 64, False), mk_const(MAX, 64, False), pref2, inp2, dummy)]
+                    n += 1
+                    chk.ob(got == want, "C18/local-many_m_n/min%d,max%d/%s/%r" % (mn, MAX, "".join(script), got[:1]),
+                           "local many_m_n(min=%d, MAX=%d) with element outcomes %r gives %r, nom's many_m_n gives %r" % (mn, MAX, "".join(script), got, want),
+                           sample={"combinator": "many_m_n", "min": mn, "max": MAX, "script": "".join(script), "outcome": repr(want)})
+            if bc is not None and "n" not in script:
+                for (cnt, CAP) in ((L, 4), (max(L - 1, 0), 4), (2, 1)):
+                    I, st, p, pref, inp = fresh(script)
+                    genv = {"I": {"ty": 0}, "O": {"ty": 0}, "E": {"ty": 0}, "F": {"ty": 0}, "VEC_SIZE": {"const": CAP}}
+                    outs = I.exec_fn(st, bc, [p, mk_const(cnt, 64, False)], genv)
+                    got = []
+                    for (s2, clo) in outs:
+                        for (s3, r) in I.apply_callable(s2, clo, [inp], dummy):
+                            got.append(_sig(I, s3, r))
+                    fails = [o for o in I.obl.values() if o.failures]
+                    I2, st2, p2, pref2, inp2 = fresh(script)
+                    if cnt > CAP:
+                        want = [("err", "Failure")]         # documented capacity difference: an error, never a panic
+                    else:
+                        want = [_sig(I2, s3, r) for (s3, r) in xform.do_count(I2, st2, pref2, mk_const(cnt, 64, False), inp2, dummy)]
+                    n += 1
+                    chk.ob(got == want and not fails, "C18/local-count/n%d,cap%d/%s/%r" % (cnt, CAP, "".join(script), (got[:1], [o.kind for o in fails][:1])),
+                           "local count(n=%d, VEC_SIZE=%d) with element outcomes %r gives %r (panic sites: %r), nom's count gives %r" % (cnt, CAP, "".join(script), got, [o.kind for o in fails], want))
+    return n
